@@ -164,6 +164,36 @@ void run_sm(uint64_t seed, const sk_mask* mask, sk_result* out)
 			}
 			memcpy(apdu0, apdu, n), n0 = n;
 		}
+		/* complete single-octet sweep of this protected command (every position),
+		   each tried against a fresh card state at the right counter */
+		if (fc == X_NONE && ctr_c < 300 && ctr_t == ctr_c + 1 && sk_chance(&r, 1, 8))
+		{
+			void* st_x = sk_alloc(keep);
+			size_t pos;
+			for (pos = 0; pos < n0 && !out->violated; ++pos)
+			{
+				uint64_t k;
+				size_t xs = 0;
+				err_t xc;
+				octet save = apdu[pos];
+				apdu[pos] ^= (octet)(1 + sk_below(&fr_rng, 255));
+				btokSMStart(st_x, key);
+				for (k = 0; k <= ctr_c; ++k)
+					btokSMCtrInc(st_x);
+				xc = btokSMCmdUnwrap(0, &xs, apdu, n0, st_x);
+				if (xc == ERR_OK && xs <= sizeof(big))
+					xc = btokSMCmdUnwrap((apdu_cmd_t*)big, &xs, apdu, n0, st_x);
+				apdu[pos] = save;
+				if (xc == ERR_OK)
+					sk_violate(out, "sm_altered_command_accepted", "sweep: octet %u of a %u-octet protected command (cdf=%u le=%u) was substituted and the command was accepted",
+						(unsigned)pos, (unsigned)n0, (unsigned)cdf, (unsigned)le);
+			}
+			sk_free(st_x);
+			sk_count("probe.sm_sweep_positions", n0);
+			sk_count("probe.sm_altered_checked", n0);
+			if (out->violated)
+				break;
+		}
 		if (fc >= X_SUBST1 && fc <= X_EXTEND)
 			alter(&fr_rng, fc, apdu, &n, sizeof(apdu));
 		/* ---- card removes protection */
